@@ -8,7 +8,10 @@
      cond : [label]      fold : [label] | null (null = default descriptor, k-th occurrence)
      x : [[number]]      P : channel count
      what : "algo" (as coded, default) | "spec" (statement) | "lastfold" (pinned-tree poisson)
-   answer: {"pairs": [[a, b, value] …]}  or  {"reject": "unbalanced"}
+     descriptor : false = the call passes descriptor=None (rejected by the code)
+     noise_kind : "none" | "matrix" | "list" | "scalar" (not a matrix: rejected)
+   answer: {"pairs": [[a, b, value] …]}  or  {"reject": "unbalanced" | "no_descriptor" |
+           "noise_type" | "noise_shape"}   (the code's ValueError / AssertionError exits)
 -/
 import Rsa.Core.Wire
 import Rsa.Core.CrossVal
@@ -168,10 +171,36 @@ def defaultCvOp (j : Json) : R Json := do
     | none => pure (obj [("reject", Json.str "unbalanced")])
     | some fold => pure (obj [("fold", ofList ofNat fold)])
 
+/-- the argument checks the code performs before touching the data, in the code's order:
+    `_check_noise` (type, then shape `P × P` of every matrix), then `descriptor is None` -/
+def precheck (withNoise : Bool) (j : Json) : R (Option Json) := do
+  let reject (why : String) : Option Json := some (obj [("reject", Json.str why)])
+  let hasDesc ← asBool (fldD j "descriptor" (Json.bool true))
+  if withNoise then
+    let P ← fld j "P" >>= asNat
+    let nkind ← asStr (fldD j "noise_kind" (Json.str "none"))
+    let nj := fldD j "noise" Json.null
+    if nkind = "scalar" then return reject "noise_type"
+    if nkind = "matrix" then
+      let m ← asList (asList asRat) nj
+      if !noiseShapeOk P m then return reject "noise_shape"
+    if nkind = "list" then
+      let ms ← asList (asList (asList asRat)) nj
+      if !ms.all (noiseShapeOk P) then return reject "noise_shape"
+  if !hasDesc then return reject "no_descriptor"
+  return none
+
+def guarded (withNoise : Bool) (j : Json) (k : R Json) : R Json := do
+  match ← precheck withNoise j with
+  | some r => pure r
+  | none => k
+
 def handle : Handler := fun op j =>
   match op with
-  | "c02.crossnobis" => some (withDesign j asRat (fun encL P D => crossRun encL j P D))
-  | "c02.poisson_cv" => some (withDesign j asFloat (fun encL P D => poissonRun encL j P D))
+  | "c02.crossnobis" =>
+    some (guarded true j (withDesign j asRat (fun encL P D => crossRun encL j P D)))
+  | "c02.poisson_cv" =>
+    some (guarded false j (withDesign j asFloat (fun encL P D => poissonRun encL j P D)))
   | "c02.default_cv" => some (defaultCvOp j)
   | _ => none
 
